@@ -171,6 +171,11 @@ func UpdateNotification(m *match.Match, v interface{}, n *pb.Notification, prefi
 	if len(n.Update)+len(n.Delete) > 1 {
 		updated = make(map[match.Client]struct{})
 	}
+	if updated == nil {
+		// A single update can still match several paths of one client (e.g.
+		// overlapping subscription paths); it must be offered only once too.
+		updated = make(map[match.Client]struct{})
+	}
 	for _, u := range n.Update {
 		m.UpdateOnce(v, append(prefix, path.ToStrings(u.Path, false)...), updated)
 	}
